@@ -67,7 +67,10 @@ pub fn ty(t: &Type) -> Value {
             }
             let strs: Vec<&str> = segs.iter().map(|s| s.as_str()).collect();
             match strs.as_slice() {
-                ["std", "ffi", "c_void"] => json!({"k": "raw", "p": ["void"]}),
+                // the C `void`, whichever standard path spells it
+                ["std", "ffi", "c_void"] | ["core", "ffi", "c_void"] | ["std", "os", "raw", "c_void"] | ["core", "os", "raw", "c_void"] => {
+                    json!({"k": "raw", "p": ["void"]})
+                }
                 ["Self"] => json!({"k": "self"}),
                 ["crate", rest @ ..] => json!({"k": "raw", "p": rest}),
                 other => json!({"k": "raw", "p": other}),
